@@ -7,3 +7,20 @@ chk("C01",
     "correspondence, the kernels by bitwise self-check; an oracle sums reported flows per junction on generated nets.",
     "Linear solve (spsolve) and result write-back are exercised by the search, not proved.",
     "Lean 4 proof over translated kernels + assembly model; exact correspondence; nodal-balance oracle search", "8/C01")
+chk("C02",
+    "Lean theorems over the kernels regenerated from the current source: the liquid residual equals pressure difference + lift + "
+    "the documented Darcy-Weisbach/hydrostatic/lumped loss (all parameter values), the gas residual equals the integrated "
+    "real-gas law of the documentation, mean-pressure formula and bounds, Reynolds number, laminar and Nikuradse factors "
+    "(liquid and gas forms), friction-loss column. Constants come from constants.py via the translator. The oracle re-evaluates "
+    "the law, v, Re, lambda and norm factors from res_* tables on generated nets for all three friction models.",
+    "Colebrook and Swamee-Jain factors are checked by the oracle only (implicit / not in the documentation as a formula); "
+    "result extraction arithmetic (v, norm factors) is exercised by the oracle, not yet translated.",
+    "Lean 4 proof over translated kernels; bitwise translator self-check; law-residual oracle search", "8/C02")
+chk("C07",
+    "Lean theorems, for all real inputs, that each numpy kernel equals its numba twin (liquid and gas residuals/derivatives, "
+    "Nikuradse factors, mean pressure, derived values, thermal node and branch terms, flow tests), with the two genuine twin "
+    "differences stated exactly and proved confined to zero-flow Jacobian entries; both twins are regenerated from source on "
+    "every run and compared bitwise / within 4 ulp with the python functions. The assembly model covers the matrix-update path. "
+    "Oracle: engine pairs, update option (hydraulic and thermal), reuse_internal_data with edited loads.",
+    "Float-level agreement of the engines is measured, not proved. Known finding: update option + active pressure controller.",
+    "Lean 4 proof of twin equality over translated kernels; bitwise self-check; differential engine/option runs", "8/C07")
